@@ -241,6 +241,11 @@ func (vr *variableResolver) String() string {
 	return strings.Join(parts, ".")
 }
 
+// maxPointerHops bounds how many pointers and interfaces a step follows before it gives
+// up. Go lets a pointer lead back to itself (var x any; x = &x): following it for as
+// long as it is a pointer would never end.
+const maxPointerHops = 100
+
 func (vr *variableResolver) resolve(ctx *ExecutionContext) (*Value, error) {
 	var current reflect.Value
 	var isSafe bool
@@ -300,7 +305,11 @@ func (vr *variableResolver) resolve(ctx *ExecutionContext) (*Value, error) {
 
 			if !isFunc {
 				// If current a pointer (to a pointer, to an interface holding one ...), resolve it
-				for current.Kind() == reflect.Ptr || current.Kind() == reflect.Interface {
+				for hops := 0; current.Kind() == reflect.Ptr || current.Kind() == reflect.Interface; hops++ {
+					if hops >= maxPointerHops {
+						// (a pointer that leads back to itself)
+						return nil, fmt.Errorf("too many levels of pointers in %s", vr.String())
+					}
 					current = current.Elem()
 					if !current.IsValid() {
 						// Value is not valid (anymore)
@@ -443,7 +452,10 @@ func (vr *variableResolver) resolve(ctx *ExecutionContext) (*Value, error) {
 		if part.isFunctionCall {
 			// (what is called may stand behind pointers, like everything else a step
 			// works on; a nil one is a nil value)
-			for current.Kind() == reflect.Ptr || current.Kind() == reflect.Interface {
+			for hops := 0; current.Kind() == reflect.Ptr || current.Kind() == reflect.Interface; hops++ {
+				if hops >= maxPointerHops {
+					return nil, fmt.Errorf("too many levels of pointers in %s", vr.String())
+				}
 				current = current.Elem()
 				if !current.IsValid() {
 					return AsValue(nil), nil
